@@ -555,6 +555,15 @@ def search_shapes(obligation):
 
 
 def find(req):
+    if "batch" in req:
+        out = []
+        for r in req["batch"]:
+            try:
+                out.append(find(r))
+            except Exception as e:  # noqa
+                import traceback
+                out.append({"reproduced": False, "note": "replayer crashed: " + traceback.format_exc()[-800:]})
+        return {"reproduced": any(x.get("reproduced") for x in out), "results": out}
     ob = req.get("obligation", "")
     w = req.get("witness") or {}
     if req.get("known_finding") and isinstance(w, dict) and w.get("native"):
